@@ -617,10 +617,11 @@ theorem sniff16_le (c : Cur F) (lst : List Nat) (pos : Nat) :
 whatever the life-cycle state, however the potential BOM is split across calls,
 whatever the stop policies of the inner calls — unless the Rust panics
 (finished decoder; replay into a buffer below the documented minimum). -/
-theorem rawCall_sound (k : Sink) (L : Laws F)
+theorem rawCall_sound' (k : Sink) (L : Laws F)
     (halt : ∀ s src m r, F.alt s src = some (m, r) → m ≤ src.length)
     (d : Decoder F) (src rest : List Nat) (pos : Nat) (last : Bool) (b1 b2 : Budget)
-    (hl : last = true → rest = []) (hw : withheld d.life ≤ pos) (hr : ReplayOk k d.cur) :
+    (hl : last = true → rest = []) (hw : withheld d.life ≤ pos)
+    (hr : 0 < withheld d.life → ReplayOk k d.cur) :
     DSound src rest pos (dref d (src ++ rest) pos) (d.rawCall k src last b1 b2) := by
   obtain ⟨life, c⟩ := d
   cases life
@@ -629,6 +630,7 @@ theorem rawCall_sound (k : Sink) (L : Laws F)
     exact checkingEnd_sound0 k L c src rest pos last b2 hl
   case finished => unfold Decoder.rawCall; simp only []; trivial
   case convertingWithPendingBB =>
+    have hr : ReplayOk k c := hr (by simp [withheld])
     unfold Decoder.rawCall; simp only [dref]
     exact afterOne_sound k L c src rest pos last 0xBB b1 b2 hl (by simpa [withheld] using hw) (hr.one 0xBB b1)
   case atStart =>
@@ -728,6 +730,7 @@ theorem rawCall_sound (k : Sink) (L : Laws F)
           · rfl
       rw [e]; exact this
   case seenUtf8First =>
+    have hr : ReplayOk k c := hr (by simp [withheld])
     have hpos : 1 ≤ pos := by simpa [withheld] using hw
     unfold Decoder.rawCall; simp only
     split
@@ -757,6 +760,7 @@ theorem rawCall_sound (k : Sink) (L : Laws F)
           · rfl
       rw [e]; exact this
   case seenUtf8Second =>
+    have hr : ReplayOk k c := hr (by simp [withheld])
     have hpos : 2 ≤ pos := by simpa [withheld] using hw
     unfold Decoder.rawCall; simp only
     split
@@ -785,6 +789,7 @@ theorem rawCall_sound (k : Sink) (L : Laws F)
           · rfl
       rw [e]; exact this
   case seenUtf16BeFirst =>
+    have hr : ReplayOk k c := hr (by simp [withheld])
     have hpos : 1 ≤ pos := by simpa [withheld] using hw
     unfold Decoder.rawCall; simp only
     split
@@ -813,6 +818,7 @@ theorem rawCall_sound (k : Sink) (L : Laws F)
           · rfl
       rw [e]; exact this
   case seenUtf16LeFirst =>
+    have hr : ReplayOk k c := hr (by simp [withheld])
     have hpos : 1 ≤ pos := by simpa [withheld] using hw
     unfold Decoder.rawCall; simp only
     split
@@ -840,5 +846,14 @@ theorem rawCall_sound (k : Sink) (L : Laws F)
           · rename_i heq; simp only [List.cons.injEq] at heq; exact absurd (by rw [heq.1]) (h2 t)
           · rfl
       rw [e]; exact this
+
+/-- the same with the replay hypothesis stated for every state (it is only used in the states in
+which bytes are withheld, see `rawCall_sound'`) -/
+theorem rawCall_sound (k : Sink) (L : Laws F)
+    (halt : ∀ s src m r, F.alt s src = some (m, r) → m ≤ src.length)
+    (d : Decoder F) (src rest : List Nat) (pos : Nat) (last : Bool) (b1 b2 : Budget)
+    (hl : last = true → rest = []) (hw : withheld d.life ≤ pos) (hr : ReplayOk k d.cur) :
+    DSound src rest pos (dref d (src ++ rest) pos) (d.rawCall k src last b1 b2) :=
+  rawCall_sound' k L halt d src rest pos last b1 b2 hl hw (fun _ => hr)
 
 end EncodingRs.Lemmas.Life
